@@ -43,6 +43,7 @@ class Collector:
         self.harness_errors = []
         self.depth = 0              # >0 while monitor (harness) code is running
         self.sample_every = 1
+        self.python_optimize = False
         self._sample_tick = 0
 
     # -- counters ---------------------------------------------------------
@@ -85,6 +86,7 @@ class Collector:
             'detail': jsonable(detail),
             'case': jsonable(self.case),
             'case_index': self.case_index,
+            'python_optimize': self.python_optimize,
             'last_events': [jsonable(e) for e in self.events],
         })
 
